@@ -274,6 +274,26 @@ func runCheck(o checkOpts) *checkResult {
 	rcfg := cfg
 	rcfg.retryS = 0
 	discharge(reachObls, rcfg)
+	// a reachability query without a definite answer (load, timeout) is asked
+	// again with the long timeout: only a definite `unsat` may count as dead
+	// only where it matters: functions none of whose returns was shown reachable
+	hasSat := map[string]bool{}
+	for _, r := range reachObls {
+		if r.Status == "sat" {
+			hasSat[r.Func+"/"+r.Mode.String()] = true
+		}
+	}
+	var undecided []*Obligation
+	for _, r := range reachObls {
+		if r.Status != "sat" && r.Status != "unsat" && !hasSat[r.Func+"/"+r.Mode.String()] {
+			undecided = append(undecided, r)
+		}
+	}
+	if len(undecided) > 0 {
+		lcfg := rcfg
+		lcfg.timeoutS = cfg.retryS
+		discharge(undecided, lcfg)
+	}
 	solveS := time.Since(solveT0).Seconds()
 
 	byBackend := map[string]int{}
@@ -310,6 +330,8 @@ func runCheck(o checkOpts) *checkResult {
 	reachSat, reachDead := 0, []string{}
 	perFuncReach := map[string]int{}
 	perFuncTotal := map[string]int{}
+	perFuncUnknown := map[string]int{}
+	reachUndecided := []string{}
 	for _, r := range reachObls {
 		perFuncTotal[r.Func+"/"+r.Mode.String()]++
 		if r.Status == "sat" {
@@ -317,10 +339,13 @@ func runCheck(o checkOpts) *checkResult {
 			perFuncReach[r.Func+"/"+r.Mode.String()]++
 		} else if r.Status == "unsat" {
 			reachDead = append(reachDead, r.Name)
+		} else {
+			perFuncUnknown[r.Func+"/"+r.Mode.String()]++
+			reachUndecided = append(reachUndecided, r.Name)
 		}
 	}
 	for k, n := range perFuncTotal {
-		if n > 0 && perFuncReach[k] == 0 {
+		if n > 0 && perFuncReach[k] == 0 && perFuncUnknown[k] == 0 {
 			res.broken = append(res.broken, "vacuity guard: no return of "+k+" is reachable under its contract (contradictory requires/invariant?)")
 		}
 	}
@@ -421,7 +446,7 @@ func runCheck(o checkOpts) *checkResult {
 			"solver_time_s": round3(solverTime), "generation_time_s": round3(genS), "solve_wall_s": round3(solveS),
 			"replay": "a failing obligation of a plain-data function is replayed: model -> inputs -> run of the real function (go test -overlay) -> the contract alone evaluated on (inputs, observed outputs); other violations are reported with no-failing-input-found (DESIGN.md 12.5)",
 			"package_functions_without_contract": w.uncovered(),
-			"vacuity_guards": map[string]interface{}{"return_reachability_queries": len(reachObls), "reachable": reachSat, "dead_returns": reachDead,
+			"vacuity_guards": map[string]interface{}{"return_reachability_queries": len(reachObls), "reachable": reachSat, "dead_returns": reachDead, "undecided_returns": reachUndecided,
 				"block_reachability_queries": len(blockObls), "unreachable_blocks": deadBlocks},
 			"relies_on_contracts_proved_under_their_own_tags": sortedKeys(relies),
 			"inlined_callees": sortedKeys(inlined), "lemmas": len(lemmas),
